@@ -48,13 +48,24 @@ func (b *box) Discard(n int) (int, error) {
 // Read the bytes from underlying reader. Is limited by the
 // constrains of the box
 func (b *box) Read(p []byte) (n int, err error) {
-	if b.remain >= len(p) {
+	if b.fits(len(p)) {
 		//fmt.Println(b.remain)
 		n, err = b.reader.br.Read(p)
 		b.adjust(n)
 		return n, err
 	}
 	return 0, ErrRemainLengthInsufficient
+}
+
+// fits reports whether n bytes remain in the box and in every box that contains it.
+func (b *box) fits(n int) bool {
+	if b.remain < n {
+		return false
+	}
+	if b.outer != nil {
+		return b.outer.fits(n)
+	}
+	return true
 }
 
 func (b *box) adjust(n int) {
